@@ -52,6 +52,10 @@ class GzipDecompressor(SimpleGzipDecompressor):
         self.is_ok = None
 
     def decompress(self, value):
+        if not value:
+            # Nothing to sniff or decode yet
+            return b''
+
         if self.checked:
             if self.is_ok:
                 return super().decompress(value)
